@@ -56,3 +56,8 @@ def loop(spec, ctx, gen_case, run_case, api0="case"):
             ctx.skip(api0, "watchdog")
         except RecursionError:
             ctx.skip(api0, "recursion-limit")
+        except Exception as e:  # noqa: BLE001  harness defect: never a verdict, never kills the shard
+            import traceback
+
+            ctx.skip(api0, f"harness-exception:{type(e).__name__}")
+            ctx.extra.setdefault("harness_errors", []).append(traceback.format_exc()[-1500:])
